@@ -57,7 +57,8 @@ def generate(rng, tier):
             if style != 'c' and b'\n' in note:
                 continue
             cm = {'c': b'/*' + note + b'*/', 'hash': b'#' + note + b'\n', 'slashes': b'//' + note + b'\n'}[style]
-            for item, opt in ((b'i = 5', b'i'), (b'il = {3, 4}', b'il'), (b's = "v"', b's'), (b'sec { ' + cm + b' a = 2 }', b'sec|a')):
+            for item, opt in ((b'i = 5', b'i'), (b'il = {3, 4}', b'il'), (b's = "v"', b's'), (b'sec { ' + cm + b' a = 2 }', b'sec|a'),
+                              (b'il = {3, 4,}', b'il'), (b'il += {5}', b'il'), (b'il = 6', b'il'), (b'b = on', b'b'), (b'f = 1.5', b'f')):
                 n += 1
                 text = (cm + b' ' + item) if opt != b'sec|a' else item
                 lines = gen.prelude(SCHEMA, F['COMMENTS']) + ['init 1 0 %d' % F['COMMENTS'], 'parse_buf 0 ' + hx(text + b'\n'), 'dump 0', 'print 0 0',
